@@ -636,7 +636,23 @@ func c08RacePass(c *ev.Ctx) {
 		bad[len(bad)/2] ^= 0x10
 	}
 	lf, _ := smallFrame(false, false, 3, true)
+	// several damaged blocks, so that more than one block goroutine reports an error at a time
+	bad3 := append([]byte(nil), frame6...)
+	if p6, err := ref.Parse(frame6, ref.Opts{}); err == nil {
+		for _, bi := range p6.Blocks {
+			bad3[bi.Off+4+bi.Stored/2] ^= 0x04
+		}
+	}
 	bodies := []func(){
+		func() {
+			r := lz4.NewReader(bytes.NewReader(bad3))
+			r.Apply(lz4.ConcurrencyOption(4))
+			io.Copy(io.Discard, r)
+			r.Reset(bytes.NewReader(bad3))
+			r.Read(make([]byte, 10)) // errors are in flight while the Reader is Reset
+			r.Reset(bytes.NewReader(frame6))
+			io.Copy(io.Discard, r)
+		},
 		func() { produceFrame(o4, big, delivery{Kind: "readfrom", Frag: 4}) },
 		func() { produceFrame(o4, big, delivery{Kind: "write", Cuts: []int{1, 65536, 200000}, Flush: 5}) },
 		func() {
